@@ -7,6 +7,7 @@ use proptest::prelude::*;
 use serde::{Deserialize, Serialize};
 use serde_json::Value;
 use std::cell::{Cell, RefCell};
+use std::collections::BTreeMap;
 use std::rc::Rc;
 use std::time::{Duration, SystemTime};
 
@@ -20,15 +21,15 @@ pub const PROP: super::Prop = super::Prop {
 #[derive(Clone, Debug, Serialize, Deserialize)]
 pub enum Task {
     /// sleep each duration (ms) in turn
-    Sleeps(Vec<u32>),
+    Sleeps(Vec<u64>),
     /// tokio interval with the period (ms), n ticks
-    Interval(u32, u32),
+    Interval(u64, u32),
     /// timeout(limit, sleep(inner)) pairs
-    Timeouts(Vec<(u32, u32)>),
+    Timeouts(Vec<(u64, u64)>),
     /// sleep_until(now + d) chain
-    SleepUntil(Vec<u32>),
+    SleepUntil(Vec<u64>),
     /// return after the given sleeps (host software finishes; only on hosts)
-    Finish(Vec<u32>),
+    Finish(Vec<u64>),
 }
 
 #[derive(Clone, Debug, Serialize, Deserialize)]
@@ -76,10 +77,42 @@ struct Obs {
     timer: Option<(Duration, Duration, Duration, &'static str)>,
 }
 
+/// A timer a host program is currently waiting on (registered when the wait
+/// starts, removed when it returns or its future is dropped).
+#[derive(Clone, Debug)]
+struct Pending {
+    host: usize,
+    /// sim time at which the wait started
+    set_at: Duration,
+    /// whole-millisecond length of the wait
+    len: Duration,
+    what: &'static str,
+}
+
 #[derive(Clone)]
 struct Shared {
     step: Rc<Cell<u64>>,
     log: Rc<RefCell<Vec<Obs>>>,
+    /// timers currently awaited by host programs, by id
+    pending: Rc<RefCell<BTreeMap<u64, Pending>>>,
+    next_id: Rc<Cell<u64>>,
+    /// per host: how many times its software has started (first poll)
+    starts: Rc<RefCell<Vec<u64>>>,
+    /// per host: its software has returned (turmoil stops running a finished host)
+    finished: Rc<RefCell<Vec<bool>>>,
+    /// period of the endless clock-observing loop (ms)
+    idle_ms: u64,
+}
+
+struct PendingGuard {
+    pending: Rc<RefCell<BTreeMap<u64, Pending>>>,
+    id: u64,
+}
+
+impl Drop for PendingGuard {
+    fn drop(&mut self) {
+        self.pending.borrow_mut().remove(&self.id);
+    }
 }
 
 impl Shared {
@@ -105,14 +138,19 @@ async fn timed<F: std::future::Future>(
     let s0 = turmoil::sim_elapsed().unwrap();
     let i0 = tokio::time::Instant::now();
     sh.obs(host, None);
+    let id = sh.next_id.get();
+    sh.next_id.set(id + 1);
+    sh.pending.borrow_mut().insert(id, Pending { host, set_at: s0, len: expect, what });
+    let _guard = PendingGuard { pending: sh.pending.clone(), id };
     let _ = f.await;
+    drop(_guard);
     let s1 = turmoil::sim_elapsed().unwrap();
     let i1 = tokio::time::Instant::now();
     sh.obs(host, Some((expect, s1 - s0, i1 - i0, what)));
 }
 
 async fn run_task(sh: Shared, host: usize, t: Task) {
-    let ms = |d: u32| Duration::from_millis(d as u64);
+    let ms = |d: u64| Duration::from_millis(d);
     match t {
         Task::Sleeps(v) | Task::Finish(v) => {
             for d in v {
@@ -150,6 +188,7 @@ async fn run_task(sh: Shared, host: usize, t: Task) {
 }
 
 async fn software(sh: Shared, host: usize, tasks: Vec<Task>) -> turmoil::Result {
+    sh.starts.borrow_mut()[host] += 1;
     sh.obs(host, None);
     let mut finishing = None;
     let mut handles = Vec::new();
@@ -163,6 +202,7 @@ async fn software(sh: Shared, host: usize, tasks: Vec<Task>) -> turmoil::Result 
     match finishing {
         Some(t) => {
             run_task(sh.clone(), host, t).await;
+            sh.finished.borrow_mut()[host] = true;
             Ok(())
         }
         None => {
@@ -170,15 +210,9 @@ async fn software(sh: Shared, host: usize, tasks: Vec<Task>) -> turmoil::Result 
                 let _ = h.await;
             }
             // keep observing the clock once per wake-up, forever
+            let idle = Duration::from_millis(sh.idle_ms);
             loop {
-                timed(
-                    &sh,
-                    host,
-                    Duration::from_millis(3),
-                    "sleep",
-                    tokio::time::sleep(Duration::from_millis(3)),
-                )
-                .await;
+                timed(&sh, host, idle, "sleep", tokio::time::sleep(idle)).await;
             }
         }
     }
@@ -192,16 +226,25 @@ pub fn run(sc: &Scenario) -> Outcome {
     // value, never against a since_epoch() sampled from the code under test
     let epoch_d = Duration::from_millis(sc.epoch_ms) + Duration::from_nanos(sc.epoch_sub_ns as u64);
     let epoch = SystemTime::UNIX_EPOCH + epoch_d;
+    let n = sc.hosts.len();
+    let tick_ms = tick.as_millis() as u64;
     let sh = Shared {
         step: Rc::new(Cell::new(0)),
         log: Rc::new(RefCell::new(Vec::new())),
+        pending: Rc::new(RefCell::new(BTreeMap::new())),
+        next_id: Rc::new(Cell::new(0)),
+        starts: Rc::new(RefCell::new(vec![0; n])),
+        finished: Rc::new(RefCell::new(vec![false; n])),
+        // the endless observer loop is scaled with the tick so that the
+        // number of wake-ups per step stays bounded (<= 16 for long ticks)
+        idle_ms: (tick_ms / 16).max(3),
     };
 
     let mut b = turmoil::Builder::new();
     b.tick_duration(tick)
         .epoch(epoch)
         .rng_seed(sc.seed)
-        .simulation_duration(Duration::from_secs(3600 * 24));
+        .simulation_duration(Duration::from_secs(3600 * 24).max(tick * (sc.steps + 2)));
     if sc.random_order {
         b.enable_random_order();
     }
@@ -223,8 +266,15 @@ pub fn run(sc: &Scenario) -> Outcome {
         return out;
     }
 
-    let n = sc.hosts.len();
     let mut registered = vec![false; n];
+    // liveness bookkeeping: a registered host whose software is neither
+    // crashed nor finished is run by every step
+    let mut crashed = vec![false; n];
+    // Some(number of software starts seen when the (re)start was requested)
+    let mut await_start: Vec<Option<u64>> = vec![None; n];
+    let mut due_checked = 0u64;
+    let mut start_checked = 0u64;
+    let mut multi_step_timer = false;
     let mut reg_offset = vec![Duration::ZERO; n];
     let mut late = false;
     let mut crashes = 0;
@@ -232,7 +282,7 @@ pub fn run(sc: &Scenario) -> Outcome {
     let mut non_dividing = false;
     for h in &sc.hosts {
         for t in &h.tasks {
-            let ds: Vec<u32> = match t {
+            let ds: Vec<u64> = match t {
                 Task::Sleeps(v) | Task::Finish(v) | Task::SleepUntil(v) => v.clone(),
                 Task::Interval(p, _) => vec![*p],
                 Task::Timeouts(v) => v.iter().map(|(a, b)| *a.min(b)).collect(),
@@ -252,6 +302,7 @@ pub fn run(sc: &Scenario) -> Outcome {
                 if !registered[i] && h.reg_after <= $done {
                     registered[i] = true;
                     reg_offset[i] = sim.elapsed();
+                    await_start[i] = Some(0);
                     if $done > 0 {
                         late = true;
                     }
@@ -281,10 +332,17 @@ pub fn run(sc: &Scenario) -> Outcome {
                     Ctl::Crash(i) if *i < n && registered[*i] && !sc.hosts[*i].client => {
                         sim.crash(format!("h{i}"));
                         crashes += 1;
+                        crashed[*i] = true;
+                        await_start[*i] = None;
+                        sh.pending.borrow_mut().retain(|_, p| p.host != *i);
                     }
                     Ctl::Bounce(i) if *i < n && registered[*i] && !sc.hosts[*i].client => {
                         sim.bounce(format!("h{i}"));
                         bounces += 1;
+                        crashed[*i] = false;
+                        sh.finished.borrow_mut()[*i] = false;
+                        await_start[*i] = Some(sh.starts.borrow()[*i]);
+                        sh.pending.borrow_mut().retain(|_, p| p.host != *i);
                     }
                     _ => {}
                 }
@@ -349,6 +407,9 @@ pub fn run(sc: &Scenario) -> Outcome {
                 }
                 if let Some((exp, ds, di, what)) = o.timer {
                     timer_obs += 1;
+                    if exp > tick {
+                        multi_step_timer = true;
+                    }
                     if ds != exp {
                         out.fail(
                             format!("timer-fires-off-instant:{what}"),
@@ -393,6 +454,48 @@ pub fn run(sc: &Scenario) -> Outcome {
             }
         }
         checked_from = log.len();
+        drop(log);
+        // --- liveness clauses: `Sim::step` runs every host whose software is
+        // running (not crashed, not finished) for one tick, so by the end of
+        // step k (sim time k*tick) ...
+        for i in 0..n {
+            if !registered[i] || crashed[i] || sh.finished.borrow()[i] {
+                continue;
+            }
+            // ... software that was registered / bounced before the step has started
+            if let Some(mark) = await_start[i] {
+                start_checked += 1;
+                if sh.starts.borrow()[i] == mark {
+                    out.fail(
+                        "due-not-fired:software-start",
+                        format!(
+                            "host h{i} was registered/bounced before step {k} (tick {tick:?}) and is not crashed, but its software was not polled during the step"
+                        ),
+                    );
+                    return out;
+                }
+                await_start[i] = None;
+            }
+        }
+        // ... and every timer whose instant lies strictly before the end of
+        // the step window has fired
+        for p in sh.pending.borrow().values() {
+            if !registered[p.host] || crashed[p.host] || sh.finished.borrow()[p.host] {
+                continue;
+            }
+            due_checked += 1;
+            if p.set_at + p.len < want {
+                out.fail(
+                    format!("due-not-fired:{}", p.what),
+                    format!(
+                        "{p:?}: instant {:?} lies before the end {want:?} of step {k} (tick {tick:?}) but the {} has not returned",
+                        p.set_at + p.len,
+                        p.what
+                    ),
+                );
+                return out;
+            }
+        }
     }
 
     if !whole_ms {
@@ -407,6 +510,34 @@ pub fn run(sc: &Scenario) -> Outcome {
         out.count("observations excluded from window/timer clauses (fractional tick)", excluded_fractional);
     } else {
         out.label("whole-ms-tick");
+    }
+    out.label(match tick_ms {
+        0 => "tick:below-1ms",
+        1..=9 => "tick:1-9ms",
+        10..=99 => "tick:10-99ms",
+        100..=999 => "tick:100-999ms",
+        1_000..=59_999 => "tick:1-59s",
+        60_000..=3_599_999 => "tick:1-59min",
+        _ => "tick:1h-and-more",
+    });
+    if tick >= Duration::from_secs(1) {
+        out.label(if tick.subsec_nanos() == 0 {
+            "tick>=1s:whole-seconds"
+        } else {
+            "tick>=1s:with-subsecond-part"
+        });
+    }
+    if tick.as_nanos() > u32::MAX as u128 {
+        out.label("tick:beyond-u32-nanos");
+    }
+    if tick.as_micros() > u32::MAX as u128 {
+        out.label("tick:beyond-u32-micros");
+    }
+    if tick.as_millis() > u32::MAX as u128 {
+        out.label("tick:beyond-u32-millis");
+    }
+    if multi_step_timer {
+        out.label("timer-longer-than-tick-fired");
     }
     if late {
         out.label("late-registration");
@@ -439,6 +570,8 @@ pub fn run(sc: &Scenario) -> Outcome {
         out.label("epoch:beyond-u32-seconds");
     }
     out.count("timer observations checked exactly", timer_obs);
+    out.count("pending timers checked for being due (per step)", due_checked);
+    out.count("software starts checked", start_checked);
     out.count("observations", checked_from as u64);
     out.nontrivial = checked_from >= 4 && (non_dividing || late || crashes + bounces > 0);
     out
@@ -494,28 +627,71 @@ pub fn run_frac(p: &FracProbe) -> Outcome {
     out
 }
 
-fn task_strategy(host: bool) -> BoxedStrategy<Task> {
-    let d = prop_oneof![
-        4 => 0u32..=12,
-        2 => 13u32..=120,
-        1 => Just(1000u32),
-    ];
+/// Timer lengths (ms).  `wide == None`: the small absolute lengths used with
+/// ticks up to 1 s.  `wide == Some(tick_ms)`: lengths scaled with the tick so
+/// that every relation between timer and tick (shorter, equal, one off, a
+/// multiple, several ticks, not dividing) occurs for every tick magnitude,
+/// plus the lengths at which `Duration` accessors change (whole-second part /
+/// sub-second part of the tick, 1 s and 1 min +-1 ms).
+fn dur_strategy(wide: Option<u64>) -> BoxedStrategy<u64> {
+    match wide {
+        None => prop_oneof![
+            4 => 0u64..=12,
+            2 => 13u64..=120,
+            1 => Just(1000u64),
+        ]
+        .boxed(),
+        Some(t) => {
+            let t = t.max(1);
+            prop_oneof![
+                3 => 0u64..=12,
+                1 => 13u64..=120,
+                1 => proptest::sample::select(vec![999u64, 1000, 1001, 59_999, 60_000, 60_001]),
+                // k ticks, one millisecond off either way
+                4 => (0u64..=4, 0u64..=2).prop_map(move |(k, off)| (k * t + off).saturating_sub(1)),
+                // anything up to three ticks
+                4 => 0u64..=3 * t,
+                // the two parts `Duration` splits the tick into
+                1 => Just(t % 1000),
+                1 => Just(t - t % 1000),
+                // a fraction of the tick
+                1 => (1u64..=7).prop_map(move |k| t * k / 8),
+            ]
+            .boxed()
+        }
+    }
+}
+
+fn task_strategy(host: bool, wide: Option<u64>) -> BoxedStrategy<Task> {
+    let d = dur_strategy(wide);
+    let (period, limit, inner) = match wide {
+        None => ((1u64..=40).boxed(), (1u64..=30).boxed(), (0u64..=30).boxed()),
+        Some(_) => (
+            d.clone().prop_map(|p| p.max(1)).boxed(),
+            d.clone().prop_map(|p| p.max(1)).boxed(),
+            d.clone(),
+        ),
+    };
     let mut v: Vec<BoxedStrategy<Task>> = vec![
         proptest::collection::vec(d.clone(), 1..6).prop_map(Task::Sleeps).boxed(),
-        (1u32..=40, 1u32..=6).prop_map(|(p, n)| Task::Interval(p, n)).boxed(),
-        proptest::collection::vec((1u32..=30, 0u32..=30), 1..4).prop_map(Task::Timeouts).boxed(),
+        (period, 1u32..=6).prop_map(|(p, n)| Task::Interval(p, n)).boxed(),
+        proptest::collection::vec((limit, inner), 1..4).prop_map(Task::Timeouts).boxed(),
         proptest::collection::vec(d.clone(), 1..5).prop_map(Task::SleepUntil).boxed(),
     ];
     if host {
-        v.push(proptest::collection::vec(0u32..=10, 0..3).prop_map(Task::Finish).boxed());
+        let f = match wide {
+            None => (0u64..=10).boxed(),
+            Some(_) => d.clone(),
+        };
+        v.push(proptest::collection::vec(f, 0..3).prop_map(Task::Finish).boxed());
     }
     proptest::strategy::Union::new(v).boxed()
 }
 
-fn host_strategy(max_steps: u32) -> BoxedStrategy<HostSpec> {
+fn host_strategy(max_steps: u32, wide: Option<u64>) -> BoxedStrategy<HostSpec> {
     (any::<bool>(), prop_oneof![3 => Just(0u32), 1 => 0..max_steps])
-        .prop_flat_map(|(client, reg_after)| {
-            proptest::collection::vec(task_strategy(!client), 1..4).prop_map(move |tasks| HostSpec {
+        .prop_flat_map(move |(client, reg_after)| {
+            proptest::collection::vec(task_strategy(!client, wide), 1..4).prop_map(move |tasks| HostSpec {
                 client,
                 reg_after,
                 tasks,
@@ -566,14 +742,60 @@ fn epoch_strategy() -> BoxedStrategy<(u64, u32)> {
     .boxed()
 }
 
-pub fn strategy(fractional: bool) -> BoxedStrategy<Scenario> {
-    let tick = if fractional {
+/// Which family of ticks a sub-tier draws from.
+#[derive(Clone, Copy, PartialEq, Eq)]
+pub enum TickClass {
+    /// whole milliseconds, 1 ms ..= 1 s, small absolute timer lengths
+    WholeMs,
+    /// not a whole number of milliseconds (known finding F-C05-1)
+    Fractional,
+    /// whole milliseconds over all orders of magnitude (1 ms .. ~50 days),
+    /// timer lengths scaled with the tick
+    Wide,
+}
+
+/// Whole-millisecond ticks (in ms) across orders of magnitude, with the
+/// values at which `Duration` accessors / integer conversions change:
+/// 1 s and 1 min (sub-second part vs. whole), u32::MAX ns (4.29 s),
+/// u16 ms, u32::MAX us (71.6 min), i32 / u32::MAX ms (24.8 / 49.7 days).
+fn wide_tick_ms() -> BoxedStrategy<u64> {
+    prop_oneof![
+        6 => proptest::sample::select(vec![
+            1u64, 2, 999, 1000, 1001, 1500, 2000, 2500, 3000, 4294, 4295, 10_000,
+            59_000, 59_999, 60_000, 60_001, 61_000, 65_535, 65_536, 90_000, 120_000,
+            3_600_000, 4_294_967, 4_294_968, 86_400_000,
+            i32::MAX as u64, i32::MAX as u64 + 1, u32::MAX as u64, u32::MAX as u64 + 1,
+        ]),
+        // whole seconds / whole minutes
+        4 => (1u64..=7200).prop_map(|s| s * 1000),
+        1 => (1u64..=600).prop_map(|m| m * 60_000),
+        // whole seconds plus a sub-second part
+        3 => (1u64..=7200, 1u64..=999).prop_map(|(s, ms)| s * 1000 + ms),
+        // one draw per order of magnitude
+        1 => 1u64..=10,
+        1 => 10u64..=100,
+        1 => 100u64..=1000,
+        1 => 1000u64..=10_000,
+        1 => 10_000u64..=100_000,
+        1 => 100_000u64..=1_000_000,
+        1 => 1_000_000u64..=10_000_000,
+        1 => 10_000_000u64..=100_000_000,
+    ]
+    .boxed()
+}
+
+pub fn strategy(class: TickClass) -> BoxedStrategy<Scenario> {
+    let tick = if class == TickClass::Fractional {
         prop_oneof![
             7 => proptest::sample::select(vec![500u64, 1500, 250, 2750, 100, 999, 1001]).prop_map(|us| (us, 0u32)),
             // nanosecond-precision ticks: 1 ns, 1 us, just below / above 1 ms and 2 ms
             3 => proptest::sample::select(vec![(0u64, 1u32), (1, 0), (999, 999), (1000, 1), (1999, 999), (2000, 1), (1234, 567)]),
+            // fractional ticks of one second and more
+            2 => proptest::sample::select(vec![(1_000_000u64, 1u32), (1_000_500, 0), (1_500_250, 0), (2_000_000, 999), (60_000_001, 0), (999_999, 999)]),
         ]
         .boxed()
+    } else if class == TickClass::Wide {
+        wide_tick_ms().prop_map(|ms| (ms * 1000, 0u32)).boxed()
     } else {
         prop_oneof![
             9 => proptest::sample::select(vec![1000u64, 2000, 3000, 5000, 7000, 10_000, 33_000, 100_000, 1_000_000]),
@@ -583,9 +805,15 @@ pub fn strategy(fractional: bool) -> BoxedStrategy<Scenario> {
         .boxed()
     };
     (tick, epoch_strategy(), any::<u64>(), any::<bool>(), 4u32..60)
-        .prop_flat_map(|((tick_us, tick_sub_ns), (epoch_ms, epoch_sub_ns), seed, random_order, steps)| {
+        .prop_flat_map(move |((tick_us, tick_sub_ns), (epoch_ms, epoch_sub_ns), seed, random_order, steps)| {
+            let wide = match class {
+                TickClass::Wide => Some(tick_us / 1000),
+                // fractional ticks of 1 s and more also get scaled timers
+                TickClass::Fractional if tick_us >= 999_999 => Some((tick_us / 1000).max(1)),
+                _ => None,
+            };
             (
-                proptest::collection::vec(host_strategy(steps), 1..5),
+                proptest::collection::vec(host_strategy(steps, wide), 1..5),
                 proptest::collection::vec(
                     (0..steps, (0usize..5, any::<bool>())),
                     0..5,
@@ -619,13 +847,16 @@ pub fn strategy(fractional: bool) -> BoxedStrategy<Scenario> {
 fn check(tier: Tier, seed: u64) -> i32 {
     let ctx = Ctx::new("C05", tier, seed, "exploration");
     ctx.replay_corpus(&replay);
-    ctx.random("whole-ms", tier.pick(12_000, 150_000), &|| strategy(false), &run);
-    ctx.random("fractional", tier.pick(2_000, 20_000), &|| strategy(true), &run);
+    ctx.random("whole-ms", tier.pick(12_000, 150_000), &|| strategy(TickClass::WholeMs), &run);
+    ctx.random("wide-ticks", tier.pick(16_000, 120_000), &|| strategy(TickClass::Wide), &run);
+    ctx.random("fractional", tier.pick(2_000, 20_000), &|| strategy(TickClass::Fractional), &run);
     ctx.finish(
-        "random scenarios (tick, epoch, 1-4 hosts/clients with sleep/interval/timeout/sleep_until tasks, late registration, crash/bounce controller); the epoch is a generated dimension: UNIX_EPOCH, UNIX_EPOCH+1ns, whole seconds (incl. 2^31 / 2^32 boundaries and year 9999), whole ms, whole us and arbitrary ns precision, never before UNIX_EPOCH (Sim::new panics there); a fresh Sim must report elapsed 0 and since_epoch == configured epoch, every step checks Sim::elapsed == tick*steps and Sim::since_epoch == configured epoch + tick*steps, and every in-host observation checks offset/epoch identities against the CONFIGURED epoch, monotonicity, the step window and exact timer firing. Non-trivial = >=4 observations and (a timer length not divisible by the tick, or a late registration, or a crash/bounce). Distinct by scenario hash.",
+        "random scenarios (tick, epoch, 1-4 hosts/clients with sleep/interval/timeout/sleep_until tasks, late registration, crash/bounce controller); three tick families: whole-ms ticks 1 ms..1 s with small absolute timer lengths, wide-ticks = whole-ms ticks over all orders of magnitude (1 ms .. ~50 days: whole seconds, whole minutes, seconds plus a sub-second part, 1 s / 1 min / u16 ms / u32::MAX ns / u32::MAX us / i32 and u32::MAX ms boundaries +-1) with timer lengths scaled to the tick (k ticks +-1 ms, up to 3 ticks, fractions, the whole-second and sub-second parts of the tick), and fractional ticks; the endless observer loop of a host sleeps max(3 ms, tick/16) so the cost per step is bounded; the epoch is a generated dimension: UNIX_EPOCH, UNIX_EPOCH+1ns, whole seconds (incl. 2^31 / 2^32 boundaries and year 9999), whole ms, whole us and arbitrary ns precision, never before UNIX_EPOCH (Sim::new panics there); a fresh Sim must report elapsed 0 and since_epoch == configured epoch, every step checks Sim::elapsed == tick*steps and Sim::since_epoch == configured epoch + tick*steps, and every in-host observation checks offset/epoch identities against the CONFIGURED epoch, monotonicity, the step window and exact timer firing; liveness after every step: software registered or bounced before the step has been polled during it, and every timer a running (not crashed, not finished) host waits on whose instant (sim time at which the wait began + whole-ms length) lies strictly before the end of the step has returned. Non-trivial = >=4 observations and (a timer length not divisible by the tick, or a late registration, or a crash/bounce). Distinct by scenario hash.",
         &[
             "host programs use only tokio::time and turmoil clock getters",
-            "fractional (non whole-millisecond) ticks, including ns-precision ticks from 1 ns, are generated as a separate class; the upper window edge and timer-exactness clauses are excluded there (known finding F-C05-1) and counted; the lower window edge, never-early timers and all epoch/offset identities are still checked",
+            "fractional (non whole-millisecond) ticks, including ns-precision ticks from 1 ns, are generated as a separate class; the upper window edge and timer-exactness clauses are excluded there (known finding F-C05-1) and counted; the lower window edge, never-early timers, the liveness clauses and all epoch/offset identities are still checked",
+            "liveness is not demanded of crashed hosts or of hosts whose software has returned (turmoil does not run them); a timer due exactly at the end of a step may fire in that step or at the start of the next",
+            "ticks above 2^32+1 ms (~50 days) are not generated",
             "epochs before UNIX_EPOCH are not generated (Sim::new expects epoch >= UNIX_EPOCH)",
         ],
     )
